@@ -23,7 +23,7 @@ ASSUMPTIONS = ["nvmon.ref exact reference model", "only removable knots are remo
 FLOORS = {'quick': {'removal': 300, 'probe-lib': 3000, 'probe-defn': 3000, 'structure': 300, 'restored': 120},
           'thorough': {'removal': 4000, 'probe-lib': 40000, 'restored': 1500}}
 MANDATORY_TAGS = ['pdim1', 'pdim2', 'pdim3', 'rational', 'multi-dir-one-call', 'partial-removal', 'full-removal', 'after-refine', 'interleaved',
-                  'via:method', 'via:operations', 'dir:u', 'dir:v', 'dir:w', 'on-knot', 'in-span', 'caller-value-removal']
+                  'via:method', 'via:operations', 'dir:u', 'dir:v', 'dir:w', 'on-knot', 'in-span', 'caller-value-removal', 'big-coordinates', 'tuple-knot-vector']
 TECHNIQUE = ("runtime monitoring: shadow-model oracle (exact reference of the original definition + remembered original control "
              "points) evaluated after every removal step of a seeded insert/refine/remove history")
 LEVEL_TEXT = ("Every removal the workload performs is compared exactly with the original shape and structurally with the expected "
@@ -44,6 +44,12 @@ def gen(rng, tier, shard, nshards):
         sd = G.rand_shape(rng, pd, clamped_only=True, **kw)
         yield {'kind': 'history', 'sd': sd, 'seed': rng.randrange(1 << 30),
                'mode': rng.choice(['single', 'single', 'single', 'two', 'two', 'refine', 'multi-dir', 'multi-dir'])}
+        if i % 3 == 2:
+            # large, uniformly offset coordinates (UTM metres, millimetres): removability must not be decided on an absolute scale
+            sd3 = G.rand_shape(rng, 1, clamped_only=True, mindeg=4, maxdeg=7, maxextra=2, rational=rng.random() < 0.3, normalize=True)
+            off = [rng.uniform(1e5, 5e6) for _ in sd3['ctrlpts'][0]]
+            sd3['ctrlpts'] = [[o_ + 1e3 * c for o_, c in zip(off, pt)] for pt in sd3['ctrlpts']]
+            yield {'kind': 'history', 'sd': sd3, 'seed': rng.randrange(1 << 30) | 1, 'mode': 'single', 'bigcoords': True}
         if i % 3 == 1:
             sd2 = G.rand_shape(rng, pd, clamped_only=True, mindeg=2, **kw)
             yield {'kind': 'history', 'sd': sd2, 'seed': rng.randrange(1 << 30) | 1, 'mode': rng.choice(['single', 'single', 'two']),
@@ -54,6 +60,38 @@ def stored_knot(o, d, u):
     """the knot value as stored by the object that is nearest to u (what a user reads back before removing it)"""
     U = G.kvs_of(o)[d]
     return min(U, key=lambda k: abs(k - u))
+
+
+def removal_amplification(p, U, u, num):
+    """A-priori error amplification of Algorithm A5.8 (The NURBS Book) for removing u `num` times from U: every removal step solves
+    temp[ii] = (P[i] - (1 - a_i) temp[ii-1]) / a_i from the left and temp[jj] = (P[j] - a_j temp[jj+1]) / (1 - a_j) from the right, so a rounding
+    error of eps*|P| grows by 1/a_i (resp. 1/(1 - a_j)) per chain step; successive steps work on the output of the previous one. Returned:
+    product over the steps of the larger chain product (>= 1). This is conditioning of the operation on THIS knot vector, computed from
+    the knot vector alone."""
+    rng_ = abs(U[-1] - U[0]) or 1.0
+    idx = [i for i, k in enumerate(U) if abs(k - u) <= 1e-12 * max(1.0, rng_)]
+    if not idx:
+        return 1.0
+    r, s = idx[-1], len(idx)
+    first, last = r - p, r - s
+    total = 1.0
+    for t in range(num):
+        i, j = first, last
+        left = right = 1.0
+        while j - i > t:
+            try:
+                ai = (u - U[i]) / (U[i + p + 1 + t] - U[i])
+                aj = (u - U[j - t]) / (U[j + p + 1] - U[j - t])
+            except (ZeroDivisionError, IndexError):
+                return float('inf')
+            left *= 1.0 / max(abs(ai), 1e-300)
+            right *= 1.0 / max(abs(1.0 - aj), 1e-300)
+            i += 1
+            j -= 1
+        total *= max(1.0, left, right)
+        first -= 1
+        last += 1
+    return total
 
 
 def removal_structure(ctx, pre, post, d, u, r):
@@ -164,6 +202,9 @@ def check(case, ctx):
         key = (d, round(u, 12))
         cond['removed'][key] = cond['removed'].get(key, 0) + r
         cond['amp'] = max(cond['amp'], 1e-13 * (1.0 / max(hrel, 1e-9)) ** cond['removed'][key] / 1e-9)
+        # the chain products of A5.8 on this knot vector (matter for high degrees next to a domain end: several small alphas per step)
+        cond['chain'] = cond.get('chain', 1.0) * removal_amplification(G.degrees_of(o)[d], list(U), u, r)
+        cond['amp'] = max(cond['amp'], 1e-14 * cond['chain'] / 1e-9)
         ctx.notes['max_conditioning_factor_applied'] = max(ctx.notes.get('max_conditioning_factor_applied', 1.0), cond['amp'])
     hsc = max(1.0, max(abs(c) for p in orig['hom'] for c in p))
     probes = so.probe_params(rng, S0, nrand=6, maxn=26 if pdim < 3 else 12)
@@ -192,6 +233,11 @@ def check(case, ctx):
                   % desc, what='restored')
 
     def do_remove(d, u, r, via, desc):
+        if not sd['normalize_kv'] and rng.random() < 0.3:
+            # knot vectors may be tuples (documented "list, tuple"); an object that does not normalise keeps the caller's tuple
+            nm = 'knotvector' if pdim == 1 else 'knotvector_' + 'uvw'[d]
+            setattr(o, nm, tuple(getattr(o, nm)))
+            ctx.tag('tuple-knot-vector')
         pre = G.snapshot(o)
         note_removal(d, u, r)
         with so.quiet():
@@ -268,13 +314,16 @@ def check(case, ctx):
             d = rng.randrange(pdim)
             # mostly well-conditioned removals (>= 3% of the range away from every knot); a minority down to 1e-3
             uservalue = case.get('uservalue', False)
-            pick = so.pick_insertion(rng, o, d, prefer_knot=0.35 if not uservalue else 0.0, mindist=0.03 if rng.random() < 0.85 else 1e-3,
-                                     small=0.6 if uservalue else 0.0)
+            big = case.get('bigcoords', False)
+            if big:
+                ctx.tag('big-coordinates')
+            pick = so.pick_insertion(rng, o, d, prefer_knot=0.35 if not (uservalue or big) else 0.0, mindist=0.03 if rng.random() < 0.85 else 1e-3,
+                                     small=0.6 if uservalue else (0.8 if big else 0.0))
             if pick is None:
                 continue
             u, s, tag = pick
             p = G.degrees_of(o)[d]
-            r = rng.randint(1, p - s)
+            r = rng.randint(1, p - s) if not big else rng.randint(2, min(3, p - s))
             if uservalue and r > 1 and rng.random() < 0.5:
                 # the copies arrive in separate calls, each naming the caller's own value
                 with so.quiet():
